@@ -307,7 +307,7 @@ def render(template_text, flags=(), canary=False):
         if s.startswith('//@expr '):
             args = _kv(s[8:])
             fn = extract.find_fn(args['rel'], args['fn'], args.get('within'), int(args.get('fnth', 0)))
-            ex = extract.find_in_fn(fn, args['start'], args.get('until'), int(args.get('nth', 0)))
+            ex = extract.find_in_fn(fn, args['start'], args.get('until'), int(args.get('nth', 0)), args.get('skip'))
             g.extracted.append(ex.record())
             txt, _ = rewrite.r12_strip_comments(ex.text)
             emit(txt + '\n', block=(ex.name, args.get('serves', '').split(',') if args.get('serves') else []))
